@@ -376,9 +376,9 @@ def strat_io(draw, tier):
 PARTS = [
     Part("arithmetic_per_axis", exec_axis, enumerate=enum_axis, shards={"quick": 16, "thorough": 16}, budget_s={"quick": 80, "thorough": 1200},
          describe="every size 1..1300 (quick) / 1..4200 (thorough) on one axis x 11 boundary sizes on the other"),
-    Part("subimages", exec_sub, strategy=strat_sub, examples={"quick": 3000, "thorough": 200000}, shards={"quick": 8, "thorough": 16},
+    Part("subimages", exec_sub, strategy=strat_sub, examples={"quick": 6000, "thorough": 200000}, shards={"quick": 8, "thorough": 16},
          describe="generated sub-images of generated parents (sizes to 5000)"),
-    Part("tile_io", exec_io, strategy=strat_io, examples={"quick": 320, "thorough": 12000}, shards={"quick": 16, "thorough": 16},
+    Part("tile_io", exec_io, strategy=strat_io, examples={"quick": 800, "thorough": 12000}, shards={"quick": 16, "thorough": 16},
          budget_s={"quick": 70, "thorough": 1500}, describe="tiles written, decoded independently, re-assembled and compared with the centred image; whole images and sub-images"),
 ]
 PARTS[0].exhaustive_tiers = {"quick", "thorough"}
